@@ -122,6 +122,25 @@ impl<'a, 'tcx> Cx<'a, 'tcx> {
                         let b = a.inspect_with_uninit_and_ptr_outside_interpreter(offset.min(len)..len);
                         let _ = write!(o, ",\"bytes\":{}", bytes_json(b));
                         if let Some(v) = self.enum_variant_of(ty, b) { let _ = write!(o, ",\"enum_variant\":{}", esc(&v)); }
+                        // payload of `Some("literal")`-like constants: one pointer + length
+                        let ptrs = a.provenance().ptrs();
+                        if ptrs.len() == 1 && b.len() == 16 {
+                            let (poff, p) = ptrs.iter().next().unwrap();
+                            if poff.bytes() as usize == offset {
+                                let mut arr = [0u8; 8];
+                                arr.copy_from_slice(&b[0..8]);
+                                let inner_off = u64::from_le_bytes(arr) as usize;
+                                arr.copy_from_slice(&b[8..16]);
+                                let inner_len = u64::from_le_bytes(arr) as usize;
+                                if let rustc_middle::mir::interpret::GlobalAlloc::Memory(ia) = self.tcx.global_alloc(p.alloc_id()) {
+                                    let ia = ia.inner();
+                                    if inner_off + inner_len <= ia.len() {
+                                        let sb = ia.inspect_with_uninit_and_ptr_outside_interpreter(inner_off..inner_off + inner_len);
+                                        if let Ok(st) = std::str::from_utf8(sb) { let _ = write!(o, ",\"payload_str\":{}", esc(st)); }
+                                    }
+                                }
+                            }
+                        }
                     }
                     break;
                 }
